@@ -234,8 +234,9 @@ def run_worker(exe, runs, valgrind=False):
             else:
                 events.append({"run": rid, "op": oi, "kind": "terminate", "cls": "terminate:" + term["type"], "fault": term["phase"], "detail": ""})
         elif valgrind and rc == 79:
-            m = re.search(r"==\d+== ([^\n]*(?:uninitialised|Invalid|Mismatched)[^\n]*)", err)
-            events.append({"run": rid, "op": oi, "kind": "crash", "cls": "memcheck:" + (m.group(1).strip() if m else "error"), "fault": "-", "detail": err[-1500:]})
+            m = re.search(r"==\d+== ([^\n]*(?:uninitialised|Invalid|Mismatched|Use of|Syscall param|Source and destination)[^\n]*)((?:\n==\d+== +(?:at|by) [^\n]*){0,10})", err)
+            det = (m.group(1) + re.sub(r"==\d+== +", " ", m.group(2))) if m else err[-1500:]
+            events.append({"run": rid, "op": oi, "kind": "crash", "cls": "memcheck:" + (m.group(1).strip() if m else "error"), "fault": "-", "detail": det[-1500:]})
         else:
             cls, tail = classify_death(rc, err)
             events.append({"run": rid, "op": oi, "kind": "crash", "cls": cls, "fault": "-", "detail": tail[-1500:]})
@@ -586,9 +587,12 @@ def main(tier, seed):
     det_runs = [(i, ops_) for i, ops_ in enumerate(gen_history(hs, Rng(common.run_seed(seed, 5)), 48 if thorough else 16))]
     ev1, st1, r1 = run_parallel(hs.exe, det_runs, jobs=1)
     ev2, st2, r2 = run_parallel(hs.exe, list(reversed(det_runs)), jobs=min(16, common.NCPU))
-    if r1 != r2 or sorted(json.dumps(e, sort_keys=True) for e in ev1) != sorted(json.dumps(e, sort_keys=True) for e in ev2):
+    sig1 = sorted((e["run"], e["op"], e["cls"], e.get("fault", "")) for e in ev1)
+    sig2 = sorted((e["run"], e["op"], e["cls"], e.get("fault", "")) for e in ev2)
+    if r1 != r2 or sig1 != sig2:
         diff = [k for k in r1 if r1.get(k) != r2.get(k)][:5]
-        log("INFRASTRUCTURE: non-deterministic execution: per-op results differ between worker assignments at %s" % diff)
+        log("INFRASTRUCTURE: non-deterministic execution: per-op results differ between worker assignments at %s %s" % (
+            diff, [x for x in sig1 if x not in sig2][:3] + [x for x in sig2 if x not in sig1][:3]))
         return 2
     log("  determinism sample: %d plans x 2 worker assignments identical (%d op results)" % (len(det_runs), len(r1)))
     # 1. enumeration: every instance x every single-fault position
@@ -605,10 +609,11 @@ def main(tier, seed):
     hist = gen_history(hs, rng, nplans)
     execute("histories", hs.exe, [(300000 + i, ops_) for i, ops_ in enumerate(hist)])
     # 5. uninitialised reads: plain build under memcheck, every instance once + the sweeps
-    vg_ops = gen_enumeration(hp, rng, draws=1, faults=False)
+    vg_ops = gen_enumeration(hp, rng, draws=(6 if thorough else 2), faults=False) + gen_sweeps(hp, cat)
+    parsers = sorted(n for n in hp.ops if hp.ops[n] & 2)
+    vg_ops += [op(n, rng.u64()) for n in parsers for _ in range(200 if thorough else 20)]
     if thorough:
-        vg_ops += gen_sweeps(hp, cat)
-        vg_ops += [o for r_ in gen_history(hp, rng, 500) for o in r_ if "name" in o]
+        vg_ops += [o for r_ in gen_history(hp, rng, 2000) for o in r_ if "name" in o]
     if shutil.which("valgrind"):
         execute("memcheck", hp.exe, chunked(vg_ops, 900000, size=256), valgrind=True, build="plain-memcheck")
     else:
